@@ -80,15 +80,19 @@ def rule_k1(ctx: Ctx) -> None:
     gens = ge.generators
     want_rng = f"range(len({patt_name}) + 1)"
     if len(gens) != 2 or any(unparse(g.iter) != want_rng for g in gens):
-        ctx.violation("C06-K1", f, node, f"cells are enumerated over {[unparse(g.iter) for g in gens]}; every cell of the induced grid is range(len({patt_name}) + 1) x range(len({patt_name}) + 1)")
-        return
+        if len(gens) == 2 and all(isinstance(g.iter, ast.Call) and call_name(g.iter) == ("range",) and len(g.iter.args) == 1 and patt_name in unparse(g.iter) for g in gens):
+            ctx.violation("C06-K1", f, node, f"cells are enumerated over {[unparse(g.iter) for g in gens]}; every cell of the induced grid is range(len({patt_name}) + 1) x range(len({patt_name}) + 1)")
+            return
+        raise AnalysisError(f"{f.where}: how the cells of the induced grid are enumerated ({[unparse(g.iter)[:40] for g in gens]}) is not recognised")
     if gens[0].ifs:
         ctx.violation("C06-K1", f, node, "a filter on the first coordinate drops cells")
         return
     xs, ys = unparse(gens[0].target), unparse(gens[1].target)
     if unparse(ge.elt) != f"({xs}, {ys})":
-        ctx.violation("C06-K1", f, node, f"shaded cell is recorded as {unparse(ge.elt)}, not ({xs}, {ys})")
-        return
+        if unparse(ge.elt) == f"({ys}, {xs})":
+            ctx.violation("C06-K1", f, node, f"shaded cell is recorded as {unparse(ge.elt)}, not ({xs}, {ys})")
+            return
+        raise AnalysisError(f"{f.where}: recorded cell `{unparse(ge.elt)}` not recognised")
     if len(gens[1].ifs) != 1:
         raise AnalysisError(f"{f.where}: expected one cell condition")
     cond = gens[1].ifs[0]
